@@ -213,7 +213,7 @@ func init() {
 			out = append(out, need(c, "calls_input_start_aligned_to_guard_page", 10000)...)
 			out = append(out, need(c, "calls_string_buffer_end_aligned_to_guard_page", 500)...)
 			out = append(out, need(c, "inputs_async_path", 300)...)
-			out = append(out, need(c, "deep_cases", 8)...)
+			out = append(out, need(c, "deep_cases", 6)...)
 			return out
 		},
 	}
